@@ -48,7 +48,8 @@ def relock(run_symbolic, all_props):
         ex_obs, _ = extras.run(p, 'quick', 0)
         names = set(by_prop[p])
         for o in ex_obs:
-            names.add(o['name'])
+            if p in o['props']:
+                names.add(o['name'])
         lock['props'][p] = sorted(names)
         rel = set()
         for n, ks in by_prop[p].items():
@@ -76,7 +77,7 @@ def check_property(prop, tier, seed, run_symbolic, lock, verbose=False, jobs=Non
     extra_obs, extra_info = extras.run(prop, tier, seed)
     for o in extra_obs:
         o.setdefault('task', 'extras')
-    obligations += extra_obs
+    obligations += [o for o in extra_obs if prop in o['props']]
     errors = [(r['key'], e) for r in results for e in r['errors']] + [('extras', e) for e in extra_info.get('errors', [])]
     undecided = [(r['key'], u) for r in results for u in r['undecided']] + \
                 [('extras', u) for u in extra_info.get('undecided', [])]
@@ -88,6 +89,14 @@ def check_property(prop, tier, seed, run_symbolic, lock, verbose=False, jobs=Non
                  can.get('true-clause-must-be-proved') == 'proved')
     obligations = [o for o in obligations if ':CANARY:' not in o['name']]
 
+    # known findings on structural (non-symbolic) obligations: matched by name and recorded observation
+    for f in findings_mod.known():
+        eq = f.get('info_equals') or {}
+        for o in obligations:
+            if o['name'] in f.get('obligations', []) and o['status'] == 'refuted' and o.get('func') == 'extras':
+                if all(str((o.get('info') or {}).get(k)) == str(v) for k, v in eq.items()):
+                    o['status'] = 'known'
+                    o.setdefault('info', {})['known_findings'] = [f['id']]
     by_name = {}
     for o in obligations:
         by_name.setdefault(o['name'], []).append(o)
